@@ -26,21 +26,22 @@ NONTRIVIAL = {
 
 # (family, quick K, thorough K)
 BATTERY = {
-    "C01": [("rand", 500, 30000), ("stop", 300, 10000), ("dead", 150, 6000), ("ties", 60, 640),
-            ("tiny", 60, 324), ("edit", 100, 5000), ("slow", 40, 108)],
-    "C04": [("rand", 500, 30000), ("stop", 300, 10000), ("ties", 120, 640), ("dead", 100, 4000),
+    "C01": [("rand", 500, 30000), ("stop", 300, 10000), ("dead", 150, 6000), ("ties", 80, 768),
+            ("tiny", 60, 324), ("edit", 100, 5000), ("slow", 40, 108), ("zerow", 36, 36)],
+    "C04": [("rand", 500, 30000), ("stop", 300, 10000), ("ties", 140, 768), ("dead", 100, 4000),
             ("tiny", 60, 324), ("samerow", 144, 144)],
-    "C02": [("stop", 700, 40000), ("dead", 250, 12000), ("ties", 60, 640), ("tiny", 60, 324),
+    "C02": [("stop", 700, 40000), ("dead", 250, 12000), ("ties", 80, 768), ("tiny", 60, 324),
             ("bigrew", 36, 36), ("slow", 40, 108)],
     "C03": [("dead", 400, 20000), ("rand", 400, 20000), ("stop", 200, 8000), ("tiny", 80, 324),
-            ("nonabs", 100, 504)],
-    "C05": [("stop", 700, 40000), ("dead", 200, 8000), ("ties", 120, 640), ("nonabs", 120, 504),
+            ("nonabs", 100, 504), ("zerow", 36, 36)],
+    "C05": [("stop", 700, 40000), ("dead", 200, 8000), ("ties", 140, 768), ("nonabs", 120, 504),
             ("bigrew", 36, 36), ("diag", 80, 160), ("samerow", 144, 144)],
     "C06": [("stop", 600, 30000), ("dead", 300, 20000), ("rand", 200, 8000), ("tiny", 60, 324),
-            ("edit", 120, 6000), ("nonabs", 100, 504), ("slow", 40, 108)],
+            ("edit", 120, 6000), ("nonabs", 100, 504), ("slow", 40, 108),
+            ("zerow", 36, 36)],
     "C14": [("stop", 800, 40000), ("dead", 250, 12000), ("diag", 160, 160), ("nonabs", 60, 504),
             ("samerow", 144, 144), ("loopdiag", 72, 72)],
-    "C10": [("hist", 250, 12000), ("edit", 120, 6000)],
+    "C10": [("hist", 250, 12000), ("edit", 120, 6000), ("zerow", 36, 36)],
     "C13": [("perm", 400, 20000)],
 }
 
